@@ -78,6 +78,39 @@ CHECKS['C02'] = dict(
          'in the model.',
     technique='Lean 4 proof parametric in the number type + bit-exact differential correspondence check')
 
+CHECKS['C01'] = dict(
+    text=('Lean 4 theorems (XL.Props.C01) about the model of the tokeniser and shunting-yard instantiated with the '
+          'precedence/arity tables generated from the source: prec_chain and arities (the binding strengths are the '
+          'ones the property lists); pairs_grouping (all 144 ordered operator pairs in both parenthesisations, on the '
+          'text) and triples_grouping (all 1728 ordered triples, on the token stream) by kernel evaluation — the '
+          'exhaustive part of the property\'s own quantifier; sign_and_percent, empty_arguments_keep_position, '
+          'array_rows, ragged_rejected, spelling_instances (instances, labelled as such); signrun_counterexample '
+          '(the pinned code folds sign runs: known finding). The unbounded-depth theorem parse_spell is not yet '
+          'ported from the prototype (DESIGN §9): beyond triples the claim rests on the correspondence. The model is '
+          'compared with Parser().ast on every generated spelling (exhaustive pairs/triples, random trees to depth 5 '
+          'in minimal and decorated spellings); the rendering of the parsed tree is compared with the rendering of the '
+          'generating tree (independent oracle) and compiled formulas are evaluated against their trees.'),
+    design='DESIGN.md §3 C01',
+    note=COMMON_NOTE + 'The regular expressions of the tokeniser are modelled for the lexeme alphabet of DESIGN §3 '
+         'C18 only (inputs outside it are answered out-of-domain by the model and reach the direct oracle only). '
+         'Letter case of TRUE/FALSE in the rendering is ignored by the oracle.',
+    technique='Lean 4 kernel-checked exhaustive operator theorems over generated tables + differential correspondence check')
+
+CHECKS['C18'] = dict(
+    text=('Lean 4 theorems (XL.Props.C18): no_escape — for EVERY string, the model of Parser.ast never produces an '
+          'exception other than the formula-syntax error (every KeyError/IndexError/endless-loop possibility of the '
+          'Python path is an explicit escape result, shown unreachable by a stack invariant); dichotomy; lex_progress '
+          '(each tokeniser iteration consumes a character: the termination argument); operator_table_complete and '
+          'filter_order on the generated tables; malformed_rejected and numeric_literals (instances). The model is '
+          'compared with Parser().ast (accept/reject and tree) on token soups, random printable strings, single-edit '
+          'mutations and constructed malformed classes; on ALL of these strings (also outside the model alphabet) the '
+          'implementation itself must return or raise FormulaError within 10 s, reject the malformed classes and '
+          'accept numeric literals with their value.'),
+    design='DESIGN.md §3 C18',
+    note=COMMON_NOTE + 'The `regex` engine and the reference regular expressions are modelled for the lexeme alphabet '
+         'only; termination of the Python loop is observed by time-out, the theorem is about the model.',
+    technique='Lean 4 invariant proof over all inputs + differential correspondence check + direct totality oracle')
+
 NOT_YET = {
 }
 
